@@ -105,7 +105,8 @@ Prog guest(bool ctxsw, unsigned timer_period) {
 }
 
 struct Ev {
-    u64 t;
+    u64 t;      // time the call returned (for reads: after the value was obtained)
+    u64 t_call; // time just before the call was made (reads only; 0 otherwise)
     u8 kind; // 0 send, 1 reply-read(host poll), 2 reply-read(callback), 3 sem-set, 4 sem-callback, 5 api-misc
     u8 ch;
     u16 v;
@@ -187,12 +188,13 @@ int main(int argc, char** argv) {
         for (int i = 0; i < 3; ++i)
             t.SetRecvDataHandler((u8)i, [&, i] {
                 callbacks.fetch_add(1, std::memory_order_relaxed);
+                u64 t_call = now_ns();
                 if (t.RecvDataIsReady((u8)i)) {
                     u16 pk = t.PeekRecvData((u8)i);
                     u16 v = t.RecvData((u8)i);
                     (void)pk;
                     reentrant_calls.fetch_add(3, std::memory_order_relaxed);
-                    log_ev({now_ns(), 2, (u8)i, v});
+                    log_ev({now_ns(), t_call, 2, (u8)i, v});
                     last_reply[i].store(v, std::memory_order_release);
                 }
             });
@@ -201,7 +203,7 @@ int main(int argc, char** argv) {
             u16 s = t.GetSemaphore();
             t.ClearSemaphore(s);
             reentrant_calls.fetch_add(2, std::memory_order_relaxed);
-            log_ev({now_ns(), 4, 0, s});
+            log_ev({now_ns(), 0, 4, 0, s});
             echoed.fetch_or(s, std::memory_order_release);
             sem_echo.fetch_add(1, std::memory_order_release);
         });
@@ -314,7 +316,7 @@ int main(int argc, char** argv) {
                 u8 ch = (u8)what;
                 u16 v = ++seq[ch];
                 sent[ch].push_back(v);
-                host_log.push_back({now_ns(), 0, ch, v});
+                host_log.push_back({now_ns(), 0, 0, ch, v});
                 t.SendData(ch, v);
                 ++api_calls;
                 if (!wait_until([&] { return last_reply[ch].load(std::memory_order_acquire) == v; }, fmt("reply to channel %d", ch).c_str())) {
@@ -333,7 +335,7 @@ int main(int argc, char** argv) {
                 u16 bits = pick_free_bit();
                 if (!bits)
                     continue;
-                host_log.push_back({now_ns(), 3, 0, bits});
+                host_log.push_back({now_ns(), 0, 3, 0, bits});
                 outstanding |= bits;
                 t.SetSemaphore(bits);
                 ++api_calls;
@@ -361,7 +363,7 @@ int main(int argc, char** argv) {
                 case 2: {
                     u16 v = ++seq[ch];
                     sent[ch].push_back(v);
-                    host_log.push_back({now_ns(), 0, ch, v});
+                    host_log.push_back({now_ns(), 0, 0, ch, v});
                     t.SendData(ch, v);
                     break;
                 }
@@ -374,7 +376,7 @@ int main(int argc, char** argv) {
                     u16 b = pick_free_bit();
                     if (b) {
                         outstanding |= b;
-                        host_log.push_back({now_ns(), 3, 0, b});
+                        host_log.push_back({now_ns(), 0, 3, 0, b});
                         t.SetSemaphore(b);
                     }
                     break;
@@ -390,8 +392,9 @@ int main(int argc, char** argv) {
                 case 9: t.MaskSemaphore(g.chance(1, 2) ? 0 : (u16)(1u << g.below(16))); t.MaskSemaphore(0); break;
                 case 10:
                     if (t.RecvDataIsReady(ch)) { // host-side read racing with the callback's read: either may get it
+                        u64 t_call = now_ns();
                         u16 v = t.RecvData(ch);
-                        host_log.push_back({now_ns(), 1, ch, v});
+                        host_log.push_back({now_ns(), t_call, 1, ch, v});
                     }
                     break;
                 case 11: std::this_thread::yield(); break;
@@ -452,12 +455,9 @@ int main(int argc, char** argv) {
             std::vector<Ev> all = host_log;
             all.insert(all.end(), dsp_log.begin(), dsp_log.end());
             std::stable_sort(all.begin(), all.end(), [](const Ev& a, const Ev& b) { return a.t < b.t; });
-            u16 max_sent[3] = {0, 0, 0}, last_seen[3] = {0, 0, 0};
             for (auto& e : all) {
                 sig = (sig ^ (u64)(e.kind * 4 + e.ch)) * 1099511628211ull;
-                if (e.kind == 0)
-                    max_sent[e.ch] = std::max(max_sent[e.ch], e.v);
-                else if (e.kind == 1 || e.kind == 2) {
+                if (e.kind == 1 || e.kind == 2) {
                     ctx.count("replies_checked");
                     // sequence numbers are unique and increasing per channel: membership == range check
                     if (e.v == 0 || e.v > seq[e.ch]) {
@@ -465,12 +465,29 @@ int main(int argc, char** argv) {
                         ctx.violation(fmt("history:value-never-sent:ch%d", e.ch), fmt("channel %d delivered %u which was never sent (max %u)", e.ch, e.v, seq[e.ch]), c);
                         break;
                     }
-                    if (e.v < last_seen[e.ch]) {
+                }
+            }
+            // order: two reads race (host poll vs callback on the DSP thread), and a time stamp is taken outside the
+            // call, so only "read A RETURNED before read B was CALLED" orders them. A read that started after another
+            // had completed must not see an older value.
+            for (int ch = 0; ch < 3 && !bad; ++ch) {
+                std::vector<Ev> reads;
+                for (auto& e : all)
+                    if ((e.kind == 1 || e.kind == 2) && e.ch == ch)
+                        reads.push_back(e);
+                std::vector<Ev> by_ret = reads, by_call = reads;
+                std::sort(by_ret.begin(), by_ret.end(), [](const Ev& a, const Ev& b) { return a.t < b.t; });
+                std::sort(by_call.begin(), by_call.end(), [](const Ev& a, const Ev& b) { return a.t_call < b.t_call; });
+                size_t k = 0;
+                u16 max_completed = 0;
+                for (auto& e : by_call) {
+                    while (k < by_ret.size() && by_ret[k].t < e.t_call)
+                        max_completed = std::max(max_completed, by_ret[k++].v);
+                    if (e.v < max_completed) {
                         bad = true;
-                        ctx.violation(fmt("history:order:ch%d", e.ch), fmt("channel %d delivered %u after %u", e.ch, e.v, last_seen[e.ch]), c);
+                        ctx.violation(fmt("history:order:ch%d", ch), fmt("channel %d delivered %u to a read that started after a read of %u had completed", ch, e.v, max_completed), c);
                         break;
                     }
-                    last_seen[e.ch] = e.v;
                 }
             }
         }
